@@ -798,7 +798,16 @@ impl World for BoxWorld {
             let mut plan = Vec::new();
             let mut lens = Vec::new();
             for _ in 0..self.cfg.packets {
-                let len = if self.cfg.long_tail { draw_len(rng, 4096) } else { rng.usize_below(81) };
+                let len = if self.cfg.long_tail {
+                    if rng.chance(1, 12) {
+                        // beyond 64 KiB: every 16-bit length/offset field would have wrapped
+                        65_000 + rng.usize_below(6_000)
+                    } else {
+                        draw_len(rng, 4096)
+                    }
+                } else {
+                    rng.usize_below(81)
+                };
                 lens.push(len);
                 plan.push(Event::Seal { len, fill: rng.next_u64() % 1000 });
             }
